@@ -33,8 +33,9 @@ def ratchet_history(rng, maxlen=10):
         else:
             fl = {"b": True}
             fl[rng.choice(["rc", "rc", "rg"])] = rng.choice("waas")
-            if rng.random() < 0.15:
-                fl["rc"], fl["rg"] = rng.choice("was"), rng.choice("was")
+            if rng.random() < 0.3:      # flag over configuration, every pair (the flag wins, also a flag of warn over auto / strict)
+                fl.pop("rc", None), fl.pop("rg", None)
+                fl["rc"], fl["rg"] = rng.choice("wwas"), rng.choice("aasw")
             if rng.random() < 0.3:
                 fl[rng.choice(["ff", "ff_cfg"])] = True
             if rng.random() < 0.1:
@@ -74,6 +75,7 @@ def run(ctx):
     nu = nonutf8_phase(ctx, bins, model)
     sr = sibling_ratchet_phase(ctx, bins, model, ctx.tier == "quick")
     ov = overlapping_runs_phase(ctx, bins, model)
+    ur = unreadable_dir_phase(ctx, bins, model)
     xcheck_model(ctx, model, 40 if ctx.tier == "quick" else 300)
     modes = {}
     for h in allh:
@@ -82,7 +84,7 @@ def run(ctx):
                 fl = o["flags"]
                 m = (fl.get("rc") or "-") + "/" + (fl.get("rg") or "-") + ("/files" if o.get("files") else "") + ("/ff" if is_ff(fl) else "")
                 modes[m] = modes.get(m, 0) + 1
-    ctx.cov["evaluations"] = lib["cases"] + hp["steps"] + br["steps"] + sd["steps"] + nu["steps"] + sr["steps"] + ov["steps"]
+    ctx.cov["evaluations"] = lib["cases"] + hp["steps"] + br["steps"] + sd["steps"] + nu["steps"] + sr["steps"] + ov["steps"] + ur["steps"]
     ctx.cov["distinct_nontrivial"] = hp["nontrivial"]
     ctx.cov["traces_validated_against_impl"] = hp["steps"] + br["steps"] + sd["steps"] + nu["steps"] + sr["steps"] - len(hp["mismatches"]) - len(br["mismatches"]) - len(sd["mismatches"]) - len(nu["mismatches"]) - len(sr["mismatches"])
     ctx.cov["rule"] = ("library level: check_baseline_ratchet / tighten_baseline on seeded result lists x baselines vs the extracted model; CLI level: histories (update, edits "
@@ -98,7 +100,8 @@ def run(ctx):
                                      "large_project_steps(40-60 files, >20 entries resolved at once)": br["steps"],
                                      "steps_run_from_a_sub_directory": sd["steps"], "steps_with_non_utf8_paths": nu["steps"],
                                      "steps_with_a_structure_result_at_an_uncounted_file(fail-fast, --diff)": sr["steps"],
-                                     "steps_two_runs_on_one_baseline_file(overlapping: known finding; sequential both orders)": ov["steps"]}
+                                     "steps_two_runs_on_one_baseline_file(overlapping: known finding; sequential both orders)": ov["steps"],
+                                     "steps_recorded_file_below_an_unreadable_directory(run without the privilege to look inside)": ur.get("skipped") or ur["steps"]}
     ctx.cov["model_vs_impl_mismatches"] = len(lib["mismatches"]) + len(hp["mismatches"]) + len(br["mismatches"]) + len(sd["mismatches"]) + len(nu["mismatches"]) + len(sr["mismatches"])
     for s in lib["sample"][:1] + hp["sample"][:2]:
         ctx.sample(s)
@@ -110,9 +113,9 @@ def run(ctx):
     fails = [f for f in lib["oracle_failures"] if f["prop"] == "C10"]
     for f in fails[:3]:
         ctx.violation({"kind": "property-oracle", "what": f["what"], "first_mismatch": {"case": f["case"]}})
-    n = report_findings(ctx, "C10", hp["findings"] + br["findings"] + sd["findings"] + nu["findings"] + sr["findings"] + ov["findings"])
+    n = report_findings(ctx, "C10", hp["findings"] + br["findings"] + sd["findings"] + nu["findings"] + sr["findings"] + ov["findings"] + ur["findings"])
     if not fails and not n:
-        tie = lib["mismatches"] + hp["mismatches"] + hp["structural"] + br["mismatches"] + sd["mismatches"] + nu["mismatches"] + sr["mismatches"] + ov["mismatches"]
+        tie = lib["mismatches"] + hp["mismatches"] + hp["structural"] + br["mismatches"] + sd["mismatches"] + nu["mismatches"] + sr["mismatches"] + ov["mismatches"] + ur["mismatches"]
         report_tie(ctx, "C10", "sgv-check / sloc-guard check == extracted Check.Ratchet + Check.Baseline.check_step", tie, proofs_ok, lib["errs"])
 
 
